@@ -158,6 +158,8 @@ def run(chk, repo, tier):
     if set(br) != {'left', 'right'}:
         raise AnalysisError('compress: branches for mode "left" and "right" not found')
     n3 = 0
+    from .C01 import pass_through_rule
+    pass_through_rule(chk, repo, 'C13.R1', fi, br)
     for mode, stmts in br.items():
         other = 'right' if mode == 'left' else 'left'
         first = stmts[0]
